@@ -25,7 +25,7 @@ PID = "C05"
 
 TRUSTED = [
     "Coq 8.16.1 kernel (vm_compute only in the non-vacuity Examples; no native_compute); axioms: none "
-    "(Print Assumptions: Closed under the global context for all 14 theorems)",
+    "(Print Assumptions: Closed under the global context for all 16 theorems)",
     "extraction: ExtrOcamlBasic only (runner ocaml/core); OCaml glue ocaml/core_main.ml + common.ml (rationals -> float for the comparison, 1e-12 relative)",
     "C++ drivers harness/unitdrv.cpp (white-box, read-only: RuleLocal templates) and harness/tsgdrv.cpp (public API), g++ -O1 -ffp-contract=off",
     "Python orchestration (analytic gradients of the test functions, finite-difference stencils, kink lattices)",
@@ -188,6 +188,9 @@ def exact_function(r, spec, info):
         exps = [tuple(pi[i:i + d]) for i in range(0, len(pi), d)] or [tuple([0] * d)]
         top = sorted(exps, key=lambda e: -sum(e))[:max(1, len(exps) // 3)]
         ms = [list(r.choice(top if r.random() < 0.6 else exps)) for _ in range(outs)]
+        if spec["rule"] == "clenshaw-curtis-zero":
+            # the rule interpolates functions that vanish on the boundary: (1 - x^2) x^e in every direction
+            return {"kind": "bubblemono", "m": [[max(e - 3, 0) for e in m] for m in ms]}
         return {"kind": "monomial", "m": ms}
     if fam == "fourier":
         idx = info["idx"]
@@ -220,6 +223,11 @@ def f_exact(fx, spec, y, x, k):
         for j in range(d):
             v *= x[j] ** fx["m"][k][j]
         return v
+    if kind == "bubblemono":
+        v = 1.0
+        for j in range(d):
+            v *= (1.0 - x[j]) * (1.0 + x[j]) * x[j] ** fx["m"][k][j]
+        return v
     if kind == "trig":
         kk, cs = fx["k"][k]
         ph = 2.0 * math.pi * sum(kk[j] * x[j] for j in range(d))
@@ -250,6 +258,15 @@ def g_exact(fx, spec, y, x, k, jacs):
             for i in range(d):
                 if i != j:
                     v *= x[i] ** m[i]
+            g[j] = v * jacs[j]
+    elif kind == "bubblemono":
+        m = fx["m"][k]
+        fac = [(1.0 - x[i]) * (1.0 + x[i]) * x[i] ** m[i] for i in range(d)]
+        for j in range(d):
+            v = -2.0 * x[j] * x[j] ** m[j] + ((1.0 - x[j]) * (1.0 + x[j]) * m[j] * x[j] ** (m[j] - 1) if m[j] > 0 else 0.0)
+            for i in range(d):
+                if i != j:
+                    v *= fac[i]
             g[j] = v * jacs[j]
     elif kind == "trig":
         kk, cs = fx["k"][k]
@@ -296,7 +313,7 @@ def pass1_lines(cid, spec, trans):
 
 
 STENCIL = (1, 2, 3)
-NSTEP = 5
+NSTEP = 8
 
 
 def fd_value(vals, h):
@@ -304,7 +321,21 @@ def fd_value(vals, h):
     return (45.0 * (vals[1] - vals[-1]) - 9.0 * (vals[2] - vals[-2]) + (vals[3] - vals[-3])) / (60.0 * h)
 
 
-def build_case(r, cid, spec, trans, steps, tier):
+# regression corpus, always run first: the witness of the wavelet finding (x on a node of the interpolation table) and deep
+# one-dimensional local polynomial grids whose points have many phantom ancestors (orders -1 and > 3)
+CORPUS = [
+    ("corpusW3node", {"family": "wavelet", "dims": 1, "outs": 1, "depth": 1, "order": 3, "ll": []}, None,
+     {"fx": {"kind": "affine"}, "extra_x": [[0.0], [0.25], [2.0 ** -9], [-0.5], [0.3]]}),
+    ("corpusW3node2d", {"family": "wavelet", "dims": 2, "outs": 2, "depth": 2, "order": 3, "ll": []}, ([-1.0, 0.0], [3.0, 2.0]),
+     {"fx": {"kind": "poly"}, "extra_x": [[0.0, -0.5], [0.125, 0.3]]}),
+    ("corpusLPm1", {"family": "localp", "dims": 1, "outs": 1, "depth": 8, "order": -1, "rule": "localp", "ll": []}, None, {}),
+    ("corpusSLP6", {"family": "localp", "dims": 1, "outs": 2, "depth": 7, "order": 6, "rule": "semi-localp", "ll": []}, ([2.0], [5.0]), {}),
+    ("corpusLP0m1", {"family": "localp", "dims": 2, "outs": 1, "depth": 5, "order": -1, "rule": "localp-zero", "ll": []}, None, {}),
+    ("corpusLPB4", {"family": "localp", "dims": 3, "outs": 3, "depth": 3, "order": 4, "rule": "localp-boundary", "ll": []}, ([0.0, -1.0, -3.0], [1.0, 1.0, 1.0]), {}),
+]
+
+
+def build_case(r, cid, spec, trans, steps, tier, force=None):
     """from the pass-1 observations build the pass-2 script and the metadata needed to judge it"""
     fam, d, outs = spec["family"], spec["dims"], spec["outs"]
     o1 = steps[1].obs if len(steps) > 1 else {}
@@ -357,6 +388,12 @@ def build_case(r, cid, spec, trans, steps, tier):
     # extra points for the exactness route: some nodes and some node +- support points that are interior
     extra = []
     fx = exact_function(r, spec, info)
+    force = force or {}
+    if "fx" in force:
+        fx = force["fx"]
+    for xc in force.get("extra_x", []):
+        y = to_y(xc)
+        extra.append({"y": y, "x": to_x(y), "free": None})
     if fx["kind"] not in ("hat", "one"):
         cand = []
         for _ in range(4):
@@ -471,92 +508,108 @@ def judge_case(res, cid, script, meta, steps, stats):
     ev = next(it).obs.get("evalb", [])
     diffs = [next(it).obs.get("diff", []) for _ in pa]
     widths = [(hi - lo) / jacs[j] for j in range(d)]
-    # ---- (i) exactness
-    if len(ev) == len(pa) * outs:
-        vs = meta["vscale_exact"]
-        reproduced = True
-        for pi_, p in enumerate(pa):
-            for k in range(outs):
-                f = f_exact(fx, spec, p["y"], p["x"], k)
-                vs = max(vs, abs(f))
-                if abs(ev[pi_ * outs + k] - f) > 1e-9 * max(vs, 1.0):
-                    reproduced = False
-        if not reproduced:
-            stats["exact_not_reproduced"][fk + ":" + fx["kind"]] = stats["exact_not_reproduced"].get(fk + ":" + fx["kind"], 0) + 1
-        else:
-            stats["exact_cases"] += 1
-            stats["exact_by_family"][fam] = stats["exact_by_family"].get(fam, 0) + 1
-            for pi_, p in enumerate(pa):
-                if fx["kind"] == "hat" and any(abs(p["x"][j]) < 1e-9 for j in range(d)):
-                    continue
-                dv = diffs[pi_]
-                if len(dv) != outs * d:
-                    viol("differentiate-size:" + fam, "differentiate returned %d numbers for %d outputs x %d dimensions" % (len(dv), outs, d))
-                    return
-                for k in range(outs):
-                    g = g_exact(fx, spec, p["y"], p["x"], k, jacs)
-                    for j in range(d):
-                        scale = max(abs(g[j]), vs / widths[j], max(abs(t) for t in g))
-                        e = abs(dv[k * d + j] - g[j]) / scale
-                        stats["exact_evals"] += 1
-                        stats["max"]["exact:" + fam] = max(stats["max"].get("exact:" + fam, 0.0), e)
-                        if not e <= TOL_EXACT:
-                            key = "exactness:" + fk
-                            if fam == "wavelet" and spec["order"] == 3 and any(kink_distance(meta["kinks"][q], p["x"][q]) < 1e-13 for q in range(d)):
-                                # input class: a coordinate of x lies exactly on a node of the interpolation table of the cubic wavelets
-                                key = "exactness:wavelet:order3:x-on-interpolation-table-node"
-                            viol(key, "differentiate of the exactly reproduced %s function is %r, analytic %r (relative %.3g) for output %d, dimension %d at x=%s"
-                                 % (fx["kind"], dv[k * d + j], g[j], e, k, j, p["y"]))
-                            return
-    # ---- (ii) finite differences
     st = next(it)                       # load fn2
     values = next(it).obs.get("values", [])
     vscale = max([1.0] + [abs(v) for v in values])
     diffs2 = [next(it).obs.get("diff", []) for _ in probes]
     sten = next(it).obs.get("evalb", [])
-    pos = 0
-    case_fd = 0
-    for pi_, p in enumerate(probes):
-        for j in range(d):
-            D = []
-            for s in range(NSTEP):
-                hh = p["h"][j] * (0.5 ** s)
-                block = sten[pos:pos + 6 * outs]
-                pos += 6 * outs
-                if len(block) < 6 * outs:
-                    return
-                Ds = []
-                for k in range(outs):
-                    vals = {off: block[oi * outs + k] for oi, off in enumerate((-3, -2, -1, 1, 2, 3))}
-                    Ds.append(fd_value(vals, hh))
-                D.append(Ds)
-            for k in range(outs):
-                ests = [abs(D[s][k] - D[s + 1][k]) for s in range(NSTEP - 1)]
-                sb = min(range(NSTEP - 1), key=lambda s: ests[s])
-                est, fd = ests[sb], D[sb + 1][k]
-                dv = diffs2[pi_][k * d + j] if len(diffs2[pi_]) == outs * d else float("nan")
-                scale = max(abs(fd), abs(dv) if dv == dv else 0.0, vscale / widths[j])
-                if not est < EST_MAX * scale:
-                    stats["fd_skipped_estimate"] += 1
-                    continue
-                e = abs(fd - dv) / scale
-                stats["fd_evals"] += 1
-                case_fd += 1
-                stats["max"]["fd:" + fam] = max(stats["max"].get("fd:" + fam, 0.0), e)
-                if not e <= TOL_FD:
-                    viol("finite-difference:" + fk, "differentiate = %r but the 6th-order central difference of evaluateBatch is %r (estimate %.2g, relative difference %.3g) output %d dimension %d at x=%s, values %s"
-                         % (dv, fd, est, e, k, j, p["y"], meta["fn2"]))
-                    return
-    if case_fd:
-        stats["fd_cases"] += 1
-        stats["fd_by_family"][fam] = stats["fd_by_family"].get(fam, 0) + 1
-    # ---- (iii) chain rule
+    diffs3 = []
     if trans:
         next(it)
         next(it)
+        diffs3 = [next(it).obs.get("diff", []) for _ in probes]
+
+    # ---- (i) exactness
+    def route_exact():
+        if len(ev) != len(pa) * outs:
+            return
+        vs = meta["vscale_exact"]
+        for pi_, p in enumerate(pa):
+            for k in range(outs):
+                f = f_exact(fx, spec, p["y"], p["x"], k)
+                vs = max(vs, abs(f))
+        for pi_, p in enumerate(pa):
+            for k in range(outs):
+                f = f_exact(fx, spec, p["y"], p["x"], k)
+                if not abs(ev[pi_ * outs + k] - f) <= 1e-9 * vs:
+                    stats["exact_not_reproduced"][fk + ":" + fx["kind"]] = stats["exact_not_reproduced"].get(fk + ":" + fx["kind"], 0) + 1
+                    return
+        stats["exact_cases"] += 1
+        stats["exact_by_family"][fam] = stats["exact_by_family"].get(fam, 0) + 1
+        seen = set()
+        for pi_, p in enumerate(pa):
+            if fx["kind"] == "hat" and any(abs(p["x"][j]) < 1e-9 for j in range(d)):
+                continue
+            dv = diffs[pi_]
+            if len(dv) != outs * d:
+                viol("differentiate-size:" + fam, "differentiate returned %d numbers for %d outputs x %d dimensions" % (len(dv), outs, d))
+                return
+            for k in range(outs):
+                g = g_exact(fx, spec, p["y"], p["x"], k, jacs)
+                for j in range(d):
+                    scale = max(abs(g[j]), vs / widths[j], max(abs(t) for t in g))
+                    e = abs(dv[k * d + j] - g[j]) / scale
+                    stats["exact_evals"] += 1
+                    if not e <= TOL_EXACT:
+                        key = "exactness:" + fk
+                        if fam == "wavelet" and spec["order"] == 3 and any(kink_distance(meta["kinks"][q], p["x"][q]) < 1e-13 for q in range(d)):
+                            # input class: a coordinate of x lies exactly on a node of the interpolation table of the cubic wavelets
+                            key = "exactness:wavelet:order3:x-on-interpolation-table-node"
+                        stats["max"]["violating:" + key] = max(stats["max"].get("violating:" + key, 0.0), e)
+                        if key not in seen:
+                            seen.add(key)
+                            viol(key, "differentiate of the exactly reproduced %s function is %r, analytic %r (relative %.3g) for output %d, dimension %d at x=%s"
+                                 % (fx["kind"], dv[k * d + j], g[j], e, k, j, p["y"]))
+                    else:
+                        stats["max"]["exact:" + fam] = max(stats["max"].get("exact:" + fam, 0.0), e)
+
+    # ---- (ii) finite differences
+    def route_fd():
+        pos = 0
+        case_fd = 0
+        bad = False
         for pi_, p in enumerate(probes):
-            dh = next(it).obs.get("diff", [])
-            dg = diffs2[pi_]
+            for j in range(d):
+                D = []
+                for s in range(NSTEP):
+                    hh = p["h"][j] * (0.5 ** s)
+                    block = sten[pos:pos + 6 * outs]
+                    pos += 6 * outs
+                    if len(block) < 6 * outs:
+                        return
+                    Ds = []
+                    for k in range(outs):
+                        vals = {off: block[oi * outs + k] for oi, off in enumerate((-3, -2, -1, 1, 2, 3))}
+                        Ds.append(fd_value(vals, hh))
+                    D.append(Ds)
+                for k in range(outs):
+                    ests = [abs(D[s][k] - D[s + 1][k]) for s in range(NSTEP - 1)]
+                    sb = min(range(NSTEP - 1), key=lambda s: ests[s])
+                    est, fd = ests[sb], D[sb + 1][k]
+                    dv = diffs2[pi_][k * d + j] if len(diffs2[pi_]) == outs * d else float("nan")
+                    scale = max(abs(fd), abs(dv) if dv == dv else 0.0, vscale / widths[j])
+                    if not est < EST_MAX * scale:
+                        stats["fd_skipped_estimate"] += 1
+                        stats["fd_skipped_by"][fk + ":" + meta["fn2"]] = stats["fd_skipped_by"].get(fk + ":" + meta["fn2"], 0) + 1
+                        continue
+                    e = abs(fd - dv) / scale
+                    stats["fd_evals"] += 1
+                    case_fd += 1
+                    if not e <= TOL_FD:
+                        if not bad:
+                            viol("finite-difference:" + fk, "differentiate = %r but the 6th-order central difference of evaluateBatch is %r (estimate %.2g, relative difference %.3g) output %d dimension %d at x=%s, values %s"
+                                 % (dv, fd, est, e, k, j, p["y"], meta["fn2"]))
+                        bad = True
+                    else:
+                        stats["max"]["fd:" + fam] = max(stats["max"].get("fd:" + fam, 0.0), e)
+        if case_fd:
+            stats["fd_cases"] += 1
+            stats["fd_by_family"][fam] = stats["fd_by_family"].get(fam, 0) + 1
+
+    # ---- (iii) chain rule
+    def route_chain():
+        for pi_, p in enumerate(probes):
+            dh, dg = diffs3[pi_], diffs2[pi_]
             if len(dh) != outs * d or len(dg) != outs * d:
                 continue
             for k in range(outs):
@@ -565,12 +618,17 @@ def judge_case(res, cid, script, meta, steps, stats):
                     scale = max(abs(want), abs(dg[k * d + j]), vscale / widths[j])
                     e = abs(dg[k * d + j] - want) / scale
                     stats["chain_evals"] += 1
-                    stats["max"]["chain:" + fam] = max(stats["max"].get("chain:" + fam, 0.0), e)
                     if not e <= TOL_CHAIN:
                         viol("chain-rule:%s:%s" % (fam, meta["kind"]), "differentiate on the transformed grid gives %r, canonical gradient x Jacobian factor gives %r (relative %.3g) output %d dimension %d at y=%s"
                              % (dg[k * d + j], want, e, k, j, p["y"]))
                         return
+                    stats["max"]["chain:" + fam] = max(stats["max"].get("chain:" + fam, 0.0), e)
         stats["chain_cases"] += 1
+
+    route_exact()
+    route_fd()
+    if trans:
+        route_chain()
 
 
 # ------------------------------------------------------------------------------------------- correspondence (model vs C++ templates)
@@ -591,7 +649,7 @@ def lp_node_support(rule, p):
 
 
 def rlq_cases(r, tier):
-    maxp = {"quick": 140, "thorough": 600}[tier]
+    maxp = {"quick": 220, "thorough": 1500}[tier]
     lines = []
     for rule in ("localp", "semilocalp", "localp0", "localpb"):
         for order in (-1, 1, 2, 3, 4, 5, 6):
@@ -623,31 +681,44 @@ def run(res, tier, seed, only=None):
     # ---- tie: RuleLocal model vs the C++ templates
     ucases = rlq_cases(r, tier)      # always drawn: the case stream below must not depend on the mode
     if not only:
-        ucf = os.path.join(wd, "rlq.txt")
-        open(ucf, "w").write("\n".join(ucases) + "\n")
         if udrv is None:
             mism.append("white-box driver unitdrv no longer compiles against the source: " + uerr[-400:])
         else:
-            rc, so, se = vlib.run([udrv, ucf], timeout=900)
-            open(os.path.join(wd, "rlq.out"), "w").write(so)
-            if rc != 0:
-                res.violation("unitdrv-crash", "unitdrv exited with %d %s" % (rc, se[-300:]), {"kind": "impl-counterexample", "cases": ucf})
-            if runner:
-                rc2, mo, me = vlib.run([runner, ucf, os.path.join(wd, "rlq.out")], timeout=1500)
-                for line in mo.split("\n"):
-                    if line.startswith("MISMATCH"):
-                        mism.append(line[:400])
-                    elif line.startswith("agree"):
-                        agree += int(line.split()[1])
-                if rc2 != 0:
-                    mism.append("core runner failed on the rlq cases: " + me[-300:])
+            import concurrent.futures as cf
+            nchunk = max(1, min(vlib.NCPU, 16))
+            chunks = [ucases[i::nchunk] for i in range(nchunk)]
 
+            def one(ci):
+                ucf = os.path.join(wd, "rlq%d.txt" % ci)
+                open(ucf, "w").write("\n".join(chunks[ci]) + "\n")
+                rc, so, se = vlib.run([udrv, ucf], timeout=900)
+                open(os.path.join(wd, "rlq%d.out" % ci), "w").write(so)
+                if rc != 0:
+                    return ("crash", "unitdrv exited with %d %s" % (rc, se[-300:]), ucf)
+                if not runner:
+                    return ("ok", "", ucf)
+                rc2, mo, me = vlib.run([runner, ucf, os.path.join(wd, "rlq%d.out" % ci)], timeout=1500)
+                return ("ran", mo + ("\nMISMATCH core runner failed on the rlq cases: " + me[-300:] if rc2 != 0 else ""), ucf)
+            with cf.ThreadPoolExecutor(nchunk) as ex:
+                for kind_, text, ucf in ex.map(one, range(nchunk)):
+                    if kind_ == "crash":
+                        res.violation("unitdrv-crash", text, {"kind": "impl-counterexample", "cases": ucf})
+                    for line in text.split("\n"):
+                        if line.startswith("MISMATCH"):
+                            mism.append(line[:400])
+                        elif line.startswith("agree"):
+                            agree += int(line.split()[1])
     vlib.log("[C05] tie done agree=%d mism=%d t=%.1fs" % (agree, len(mism), __import__("time").time() - res.t0))
     # ---- direct evaluation
-    ncase = {"quick": 200, "thorough": 2400}[tier] * (3 if proof_broken else 1)
+    ncase = {"quick": 1600, "thorough": 16000}[tier] * (3 if proof_broken else 1)
     cases = {}
     fams = gl.FAMILIES
     p1 = []
+    for cid, spec, trans, force in CORPUS:
+        if only and cid != only:
+            continue
+        cases[cid] = {"spec": spec, "trans": trans, "force": force}
+        p1 += pass1_lines(cid, spec, trans)
     for i in range(ncase):
         cid = "d%d" % i
         fam = fams[i % len(fams)] if i < 3 * len(fams) else r.choice(["global", "sequence", "localp", "localp", "wavelet", "fourier"])
@@ -664,7 +735,7 @@ def run(res, tier, seed, only=None):
     for cid, c in cases.items():
         steps = obs1.get(cid, [])
         rr = vlib.rng(seed, PID, cid)
-        built = build_case(rr, cid, c["spec"], c["trans"], steps, tier)
+        built = build_case(rr, cid, c["spec"], c["trans"], steps, tier, c.get("force"))
         if built is None:
             bad = [s for s in steps if s.exc is not None]
             if bad and (bad[0].exc[0] == "hang" or bad[0].exc[0].startswith("crash")):
@@ -678,7 +749,7 @@ def run(res, tier, seed, only=None):
         res.violation("tsgdrv-crash", "tsgdrv exited with %d: %s" % (rc, se[-400:]), {"kind": "impl-counterexample", "script": p2[-20:]})
     vlib.log("[C05] pass2 done t=%.1fs" % (__import__("time").time() - res.t0))
     stats = {"tier": tier, "violations": 0, "exact_cases": 0, "exact_evals": 0, "exact_not_reproduced": {}, "exact_by_family": {}, "fd_cases": 0, "fd_evals": 0,
-             "fd_skipped_estimate": 0, "fd_by_family": {}, "chain_cases": 0, "chain_evals": 0, "max": {}}
+             "fd_skipped_estimate": 0, "fd_skipped_by": {}, "fd_by_family": {}, "chain_cases": 0, "chain_evals": 0, "max": {}}
     dist, nontrivial = {}, 0
     for cid, meta in metas.items():
         steps = obs2.get(cid, [])
@@ -721,7 +792,7 @@ def run(res, tier, seed, only=None):
         "exactness": {"cases_reproduced": stats["exact_cases"], "comparisons": stats["exact_evals"], "by_family": stats["exact_by_family"],
                       "not_reproduced_skipped": stats["exact_not_reproduced"], "tolerance": TOL_EXACT},
         "finite_differences": {"cases": stats["fd_cases"], "comparisons": stats["fd_evals"], "by_family": stats["fd_by_family"],
-                               "skipped_error_estimate_too_large": stats["fd_skipped_estimate"], "tolerance": TOL_FD, "estimate_bound": EST_MAX},
+                               "skipped_error_estimate_too_large": stats["fd_skipped_estimate"], "skipped_by_class": stats["fd_skipped_by"], "tolerance": TOL_FD, "estimate_bound": EST_MAX},
         "chain_rule": {"cases": stats["chain_cases"], "comparisons": stats["chain_evals"], "tolerance": TOL_CHAIN},
         "max_relative_difference": stats["max"], "direct_property_violations": stats["violations"],
     })
